@@ -934,9 +934,11 @@ def reach_variant(built, ov):
     return out, [n for (_p, n, _i) in inserts]
 
 
-def verify_unit(vspec_path, workdir, check_reach=True):
+def verify_unit(vspec_path, workdir, check_reach=True, extra_postlude=None):
     """Build + verify one unit. Returns a result dict; raises Undecided."""
     ov = Overlay(vspec_path)
+    if extra_postlude:
+        ov.postlude.append(extra_postlude)
     built = build(ov)
     os.makedirs(workdir, exist_ok=True)
     gen = os.path.join(workdir, ov.unit + '.rs')
